@@ -158,9 +158,9 @@ def gen_name_element(rng):
     elif k < 0.8:
         nm = rng.choice(['CD1', 'OE1', 'NH2', 'HB2', 'OXT']); el = nm[0]
     elif k < 0.9:
-        nm = rng.choice(['1HG', '2HD', '3HB']); el = 'H'
+        nm = rng.choice('0123456789') + rng.choice(['HG', 'HD', 'HB', 'HE']); el = 'H'
     else:
-        nm = rng.choice(['HE21', 'HD11', '1HD1', 'HH12']); el = 'H'
+        nm = rng.choice(['HE21', 'HD11', '1HD1', 'HH12', '0HD1']); el = 'H'
     return nm, el
 
 def gen_coord(rng, wide=False):
